@@ -720,7 +720,7 @@ func (c *Ctx) runDivisions(r *Rule, scope []*ssa.Function) {
 						okG = true
 					}
 				}
-				r.Ob(okG, fmt.Sprintf("%s|div#%d|%s", c.fnName(fn), n, c.path(bo.Y)), bo.Pos(), "integer division / remainder by "+c.path(bo.Y)+": a dominating test establishes that it is not zero")
+				r.Ob(okG, fmt.Sprintf("%s|div#%d", c.fnName(fn), n), bo.Pos(), "integer division / remainder by "+c.path(bo.Y)+": a dominating test establishes that it is not zero")
 			}
 		}
 	}
